@@ -59,6 +59,12 @@ Theorem C12_DECCOLM_reset : forall (a : astate) p ms, AWF a -> ASC a -> enc ms p
   (forall r c, r < a_lines a -> a_grid a' r c = aattr a) /\ aattr a' = aattr a /\ ax a' = 0 /\ ay a' = home_row a' /\
   (forall y, y < a_lines a -> nmem y (a_dirty a') = true).
 Proof. exact c12_deccolm_reset. Qed.
+(* DECCOLM round trip: SM ?3 then RM ?3 returns to the previous width — erased, cursor home, nothing remembered *)
+Theorem C12_DECCOLM_round_trip : forall (a : astate), AWF a -> ASC a ->
+  let a2 := a_set_mode (a_set_mode a [3] true true) [3] true false in
+  a_cols a2 = a_cols a /\ a_lines a2 = a_lines a /\ a_savedcols a2 = None /\
+  (forall r c, r < a_lines a -> a_grid a2 r c = aattr a) /\ aattr a2 = aattr a /\ ax a2 = 0.
+Proof. exact (c12_deccolm_round_trip (fun _ => 0) (fun _ => false) (fun x => x)). Qed.
 (* non-vacuity: the encodings used by the parser *)
 Example enc_private_25 : enc [25] true = [DECTCEM] /\ enc [3] true = [DECCOLM] /\ enc [5] true = [DECSCNM] /\ enc [6] true = [DECOM]
   /\ supported_side_effect (enc [4; 20; 7; 1049; 2004] true) = false /\ supported_side_effect (enc [4; 20; 25; 3; 5; 6] false) = false.
@@ -71,3 +77,4 @@ Print Assumptions C12_DECSCNM.
 Print Assumptions C12_DECCOLM_set.
 Print Assumptions C12_DECCOLM_reset.
 Print Assumptions C12_DECOM_homes.
+Print Assumptions C12_DECCOLM_round_trip.
